@@ -87,5 +87,26 @@ func (c *ChoquetIntegralBiasListener) Merge(params model.MethodParameters, addit
 	newParams := addition.(choquetParams)
 	resultWeights := oldParams.weights.Merge(newParams.weights)
 	resultCriteria := append(*oldParams.criteria, *newParams.criteria...)
+	completeWeights(resultWeights, &resultCriteria, newParams.criteria)
 	return choquetParams{weights: resultWeights, criteria: &resultCriteria}
+}
+
+// the addition may have been evaluated for another criteria set than the one it is merged into
+// (concealment evaluates it for the original criteria): capacities of unions of the added criteria
+// with criteria known only to the merged parameters are completed with the rule of OnCriterionAdded
+// - an added criterion does not change the capacity of a union.
+func completeWeights(weights *model.Weights, criteria *model.Criteria, added *model.Criteria) {
+	for _, union := range *PowerSet(*criteria.Names()) {
+		key := criterionKey(&union)
+		if _, ok := (*weights)[key]; ok {
+			continue
+		}
+		withoutAdded := union
+		for _, a := range *added {
+			withoutAdded = utils.RemoveSingleStringOccurrence(withoutAdded, a.Id)
+		}
+		if len(withoutAdded) > 0 && len(withoutAdded) < len(union) {
+			(*weights)[key] = getWeightForCriteriaUnion(&withoutAdded, weights)
+		}
+	}
 }
